@@ -63,7 +63,7 @@ CLAIMED = {
          "proved: an iteration that touches the data only through the interface produces equal state sequences for data objects answering the interface alike (and CP-ALS's sweep is such an iteration, dense and sparse "
          "holders answer alike, CP-APR's sparse sums equal its dense sums); a printing branch that only observes does not change the returned state for any interval (incl. CP-APR's in-place renormalisation); results are "
          "functions of the draw stream; scaling the data scales the ALS update / HOSVD core / HOOI step and keeps the fit and the chosen ranks; consistent mode relabelling commutes with a sweep. "
-         "Whole-run CP-ALS scale equivariance is _partial (step simulation only) and validated on the implementation. Paired runs: dense vs sparse, printing intervals, equal seeds, scale factors, all relabellings for N=3",
+         "Whole-run CP-ALS scale equivariance is proved on the concrete C09 model through a column-scaling simulation relation (C18_scale_cpals_run: equal iteration counts and fits, residual and model tensor scaled by c, for any number of passes, both printing branches, after arrange / fixsigns), under a stated regularity hypothesis on the coefficient matrices. Paired runs: dense vs sparse, printing intervals, equal seeds, scale factors, all relabellings for N=3",
          _NOTE + "; that the real kernels compute the specification sums is C02's claim and a hypothesis here; paired runs are compared at 1e-8 (1e-6 for whole-run CP-ALS scaling); ill-conditioned pairs are tagged and not judged", "DESIGN.md 7 (C18)"),
  "C19": ("Lean 4 theorems 'validation prefix accepts iff the stated precondition holds' for models of every operation's argument checking + malformed-request stream against the real code",
          "for every covered public operation (ttv/ttm/mttkrp in all representations, ttt, contract, collapse, scale, permute, reshape, to_tenmat/to_sptenmat, the constructors, from_aggregator, from_vector, extract, "
